@@ -22,7 +22,7 @@ Your task: make ONE small, realistic source change (the kind of slip a maintaine
 {('Hint on what kind of change to look for this time: ' + hint) if hint else ''}
 Rules: do not edit or delete existing tests; do not touch build.rs/Cargo.toml; do not `git commit`; leave the change as uncommitted modifications in the worktree. Keep the change minimal (a few lines). .lalrpop files are compiled by build.rs; the generated .rs parsers are gitignored, do not hand-edit them.
 
-When done, verify yourself: (a) `cargo test --workspace --no-fail-fast --offline` passes all 68 pre-existing tests with the change (your new demo test is expected to fail, so run it separately or check it is the only failure); (b) the demo fails with the change; (c) `git stash` the source change (keep the demo), show the demo passes on the original, then `git stash pop` to restore the change.
+When done, verify yourself: (a) `cargo test --workspace --no-fail-fast --offline` passes all 68 pre-existing tests with the change (your new demo test is expected to fail, so run it separately or check it is the only failure); (b) the demo fails with the change; (c) save the source change with `git diff -- src > /tmp/<yourname>.diff`, undo it with `git apply -R /tmp/<yourname>.diff`, show the demo passes on the original, then `git apply /tmp/<yourname>.diff` to restore the change. Do NOT use `git stash` (the stash is shared between worktrees and other agents work in sibling worktrees).
 
 Write these files:
   {wt}/MUTANT/patch.diff   -- `git diff` of the source change only (not the demo)
